@@ -58,6 +58,8 @@ def gen_history(r, stale_etag=False, max_peers=None):
     # p -> (10.0.0.1 + p/4, 40000 + p%4)
     base = r.choice([0, 0, 1, 2, 3, 7])
     peers = [base + p for p in peers]
+    if r.random() < 0.25:
+        ops.append("evref:%d" % r.choice([1, 2, 3]))
     first_pass = r.random() < 0.5
     if first_pass:
         for p in peers:
@@ -130,6 +132,8 @@ def boundary_cases():
     out.append("se 20 2 2 rx:0:a rx:1:a adv:2000 prep adv:2000 prep ack:0 adv:100000 prep")
     # block-wise response state hanging off a session that is reclaimed / torn down
     out.append("se 21 1 0 rx:0:b rx:0:n adv:1000 prep rx:1:b free")
+    # the SESSION_NEW handler keeps every second session: those are never idle
+    out.append("se 24 1 2 evref:2 rx:0:g rx:1:g rx:2:g rx:3:g adv:1000 prep rx:4:g rel:0 rel:2 adv:1000 prep rx:5:g rel:4 free")
     # multicast request: the delayed response (queue node) keeps the session past its timeout
     out.append("se 22 1 0 rx:0:m rx:1:m rx:0:g adv:1000 prep adv:1000 prep adv:3000 prep adv:1000 prep")
     out.append("se 23 1 1 rx:0:m rx:1:g rx:2:g rx:3:m adv:5000 prep rx:4:g free")
